@@ -305,7 +305,8 @@ def write_evidence(pid, tier, seed, coverage, wall_s, violations, assumptions):
 
 
 def write_replay(pid, name, content):
-    d = os.path.join(BUILD, "replay")
+    # experiments on scratch copies (VERIF_EVID set) keep their replay files next to their evidence
+    d = os.path.join(os.environ["VERIF_EVID"], "replay") if os.environ.get("VERIF_EVID") else os.path.join(BUILD, "replay")
     os.makedirs(d, exist_ok=True)
     p = os.path.join(d, "%s_%s.txt" % (pid, name))
     with open(p, "w") as f:
